@@ -120,7 +120,8 @@ def run(ctx):
             continue
         if out["problem"] and not (E.subsample and out["problem"][0] == "invalid_batch" and "shape" in out["problem"][1] and _only_short(lp, out)):
             ctx.violation(E.name, out["problem"][0], out["problem"][1], rc, what=f"{E.name}: {out['problem'][1]}",
-                          tags=PL.case_tags({"X": lp["X"], "y": lp["y"], "cmode": "none", "cand": None}))
+                          tags=PL.case_tags({"X": lp["X"], "y": lp["y"], "cmode": "none", "cand": None})
+                          | ({"dup_rows"} if len(np.unique(lp["X"], axis=0)) < len(lp["X"]) else set()))
             continue
         if E.subsample:
             continue
